@@ -91,6 +91,10 @@ type inlIfaceT struct {
 	Z int8
 }
 
+type inlIfaceU struct {
+	I interface{} `struct:",inline"`
+}
+
 // FOLD_InlineIface (C12, C09, C16): a struct with an inlined interface member
 // holding a struct, a pointer to a struct or a map: the members of the dynamic value
 // appear as members of the outer object, in place; a failing visitor gets its own
@@ -99,7 +103,15 @@ func FOLD_InlineIface(h *rt.H) {
 	a, z := int8(h.U8("a")), int8(h.U8("z"))
 	v := inlIfaceT{A: a, Z: z}
 	want := []ev.Event{{K: ev.ObjStart}, {K: ev.Key, Str: []byte("a")}, sNum(int64(a))}
-	switch h.Choose("dyn", 0, 3) {
+	switch h.Choose("dyn", 0, 5) {
+	case 4: // the inlined value inlines an interface value itself (same struct type)
+		x := int8(h.U8("mx"))
+		v.I = inlIfaceT{A: x, I: map[string]int8{"m": x}, Z: x}
+		want = append(want, ev.Event{K: ev.Key, Str: []byte("a")}, sNum(int64(x)), ev.Event{K: ev.Key, Str: []byte("m")}, sNum(int64(x)), ev.Event{K: ev.Key, Str: []byte("z")}, sNum(int64(x)))
+	case 5: // ... of another struct type, two levels
+		x := int8(h.U8("mx"))
+		v.I = &inlIfaceU{I: inlIfaceU{I: map[string]interface{}{"m": x}}}
+		want = append(want, ev.Event{K: ev.Key, Str: []byte("m")}, sNum(int64(x)))
 	case 0:
 		in, evs := tInBuild(h)
 		v.I = in
@@ -130,4 +142,163 @@ func FOLD_InlineIface(h *rt.H) {
 		h.Assert("error-returned", ferr == ev.ErrInjected)
 		h.Assert("no-event-after", frec.After == 0)
 	}
+}
+
+// Custom folders and IsZero implementers in every position the mapping names.
+
+type valF struct{ A int8 } // Folder with a value receiver: emits its member as a string-tagged pair
+
+func (v valF) Fold(vs structform.ExtVisitor) error {
+	if err := vs.OnArrayStart(1, structform.AnyType); err != nil {
+		return err
+	}
+	if err := vs.OnInt8(v.A); err != nil {
+		return err
+	}
+	return vs.OnArrayFinished()
+}
+
+type ptrF struct{ A int8 } // Folder with a pointer receiver
+
+func (p *ptrF) Fold(vs structform.ExtVisitor) error { return vs.OnInt16(int16(p.A) + 1000) }
+
+type objF struct{ A int8 } // Folder emitting an object (usable inline)
+
+func (o objF) Fold(vs structform.ExtVisitor) error {
+	if err := vs.OnObjectStart(1, structform.AnyType); err != nil {
+		return err
+	}
+	if err := vs.OnKey("x"); err != nil {
+		return err
+	}
+	if err := vs.OnInt8(o.A); err != nil {
+		return err
+	}
+	return vs.OnObjectFinished()
+}
+
+type pzStruct struct{ A int8 } // IsZero with a pointer receiver, no Folder
+
+func (p *pzStruct) IsZero() bool { return p.A == 0 }
+
+type pzInt int16
+
+func (p *pzInt) IsZero() bool { return *p == 0 }
+
+type vzStruct struct{ A int8 } // IsZero with a value receiver
+
+func (v vzStruct) IsZero() bool { return v.A == 0 }
+
+type folderFields struct {
+	P  *valF         // nil: null
+	Q  *ptrF         // nil: null
+	I  gotype.Folder // nil: null
+	V  valF
+	W  ptrF
+	O  *valF    `struct:",omitempty"`
+	Zs pzStruct `struct:"zs,omitempty"`
+	Zi pzInt    `struct:"zi,omitempty"`
+	Zv vzStruct `struct:"zv,omitempty"`
+}
+
+type inlFolder struct {
+	A int8
+	B objF `struct:",inline"`
+}
+
+// FOLD_FolderFields (C12, C09): pointers to, interfaces of and values of types with a
+// custom Folder as struct fields, container elements and at top level, nil or not;
+// omitempty fields whose emptiness is given by IsZero with value and pointer
+// receivers. Expected events follow the documented mapping: nil pointer or interface
+// => null; non-nil => exactly what the folder emits; IsZero()==true => omitted,
+// otherwise the plain value of the field.
+func FOLD_FolderFields(h *rt.H) {
+	x := int8(h.U8("x"))
+	vfEv := func(a int8) []ev.Event { return []ev.Event{{K: ev.ArrStart}, sNum(int64(a)), {K: ev.ArrEnd}} }
+	pfEv := func(a int8) []ev.Event { return []ev.Event{sNum(int64(a) + 1000)} }
+	key := func(k string) ev.Event { return ev.Event{K: ev.Key, Str: []byte(k)} }
+	nilEv := []ev.Event{{K: ev.Nil}}
+	var v interface{}
+	var want []ev.Event
+	switch h.Choose("where", 0, 7) {
+	case 0: // struct fields
+		f := folderFields{V: valF{x}, W: ptrF{x}}
+		want = []ev.Event{{K: ev.ObjStart}}
+		add := func(k string, evs []ev.Event) { want = append(append(want, key(k)), evs...) }
+		if h.Choose("P", 0, 1) == 1 {
+			f.P = &valF{x}
+			add("p", vfEv(x))
+		} else {
+			add("p", nilEv)
+		}
+		if h.Choose("Q", 0, 1) == 1 {
+			f.Q = &ptrF{x}
+			add("q", pfEv(x))
+		} else {
+			add("q", nilEv)
+		}
+		switch h.Choose("I", 0, 3) {
+		case 0:
+			add("i", nilEv)
+		case 1:
+			f.I = valF{x}
+			add("i", vfEv(x))
+		case 2:
+			f.I = &ptrF{x}
+			add("i", pfEv(x))
+		case 3:
+			f.I = (*valF)(nil)
+			add("i", nilEv)
+		}
+		add("v", vfEv(x))
+		add("w", pfEv(x))
+		if h.Choose("O", 0, 1) == 1 {
+			f.O = &valF{x}
+			add("o", vfEv(x))
+		}
+		z := int8(h.U8("z"))
+		f.Zs, f.Zi, f.Zv = pzStruct{z}, pzInt(z), vzStruct{z}
+		if z != 0 {
+			obj := []ev.Event{{K: ev.ObjStart}, key("a"), sNum(int64(z)), {K: ev.ObjEnd}}
+			add("zs", obj)
+			add("zi", []ev.Event{sNum(int64(z))})
+			add("zv", obj)
+		}
+		want = append(want, ev.Event{K: ev.ObjEnd})
+		v = f
+	case 1: // top level
+		switch h.Choose("top", 0, 3) {
+		case 0:
+			v, want = (*valF)(nil), nilEv
+		case 1:
+			v, want = &valF{x}, vfEv(x)
+		case 2:
+			v, want = (*ptrF)(nil), nilEv
+		case 3:
+			v, want = &ptrF{x}, pfEv(x)
+		}
+	case 2: // slice elements
+		v = []*valF{nil, {x}}
+		want = append(append(append([]ev.Event{{K: ev.ArrStart}}, nilEv...), vfEv(x)...), ev.Event{K: ev.ArrEnd})
+	case 3: // map values
+		v = map[string]*valF{"k": nil}
+		want = []ev.Event{{K: ev.ObjStart}, key("k"), {K: ev.Nil}, {K: ev.ObjEnd}}
+	case 4: // generic containers
+		v = []interface{}{(*valF)(nil), valF{x}, &ptrF{x}}
+		want = append(append(append(append([]ev.Event{{K: ev.ArrStart}}, nilEv...), vfEv(x)...), pfEv(x)...), ev.Event{K: ev.ArrEnd})
+	case 5: // interface-typed field holding a nil pointer to a Folder type
+		v = struct{ I interface{} }{I: (*valF)(nil)}
+		want = []ev.Event{{K: ev.ObjStart}, key("i"), {K: ev.Nil}, {K: ev.ObjEnd}}
+	case 6: // slice of values with pointer-receiver folder
+		v = []ptrF{{x}}
+		want = append(append([]ev.Event{{K: ev.ArrStart}}, pfEv(x)...), ev.Event{K: ev.ArrEnd})
+	case 7: // inlined struct with a Folder emitting an object: its members, in place
+		v = inlFolder{A: x, B: objF{x}}
+		want = []ev.Event{{K: ev.ObjStart}, key("a"), sNum(int64(x)), key("x"), sNum(int64(x)), {K: ev.ObjEnd}}
+	}
+	var rec ev.Recorder
+	err := gotype.Fold(v, &rec)
+	h.Assert("no-error", err == nil)
+	h.Assert("events", ev.Equal(ev.Normalise(rec.Events), want))
+	h.Assert("contract", ev.Contract(rec.Events) == "")
 }
